@@ -5,7 +5,7 @@
    (`repaired`), which `checked_tree_is_repaired` shows the checked tree to be. *)
 From Coq Require Import ZArith List Bool.
 From GD Require Import C02.Model C02.Slices C02.CodecProofs C02.BzRead C02.HistoryProofs C02.Windows
-                       C02.Handle C02.Current C02.Refutations C02.MplexCache Gen.C02Cfg.
+                       C02.Handle C02.Current C02.Refutations C02.MplexCache C02.Writes Gen.C02Cfg.
 Import ListNotations.
 Local Open Scope Z_scope.
 
@@ -45,6 +45,24 @@ Theorem invariant_after_any_history :
   forall BUF dec, (forall S, dec_ok BUF dec S) -> forall d, wf_db d ->
   forall h s, InvH d s -> InvH d (run dec d s h).
 Proof. exact run_inv. Qed.
+
+(* ---- "After a successful change of data (gd_putdata), reads reflect exactly that change and nothing
+   else": gd_putdata on a RAW field of the in-place (raw) encoding is the event put_raw (bytes spliced
+   into the file, hole zero-filled, file left open with the pointer after the last sample written; a
+   write before the frame offset is refused and changes nothing).  After ANY history of calls and
+   writes an absolute read returns the window of the CURRENT contents. *)
+Theorem reads_reflect_writes :
+  forall BUF dec, (forall S, dec_ok BUF dec S) ->
+  forall d0 (h : list event) f fd k n, wf_db d0 ->
+    let ds := ev_run dec (d0, init d0) h in
+    nth_error (d_fields (fst ds)) f = Some fd -> 0 <= k <= 2 ^ 61 -> 0 <= n <= 2 ^ 61 ->
+    snd (step dec (fst ds) (snd ds) (CGet f (Some k) n)) = RData (spec_window (fst ds) f k n).
+Proof. exact reads_reflect_writes_l. Qed.
+Theorem written_bytes_are_there : forall S a bs, 0 <= a -> slice (splice S a bs) a (len bs) = bs.
+Proof. exact splice_written. Qed.
+Theorem invariant_preserved_by_writes :
+  forall BUF dec, (forall S, dec_ok BUF dec S) -> forall ds e, Good ds -> Good (ev_step dec ds e).
+Proof. exact ev_step_good. Qed.
 
 (* ---- MPLEX: start-value cache (type, sample, datum), chunked look-back over the whole field,
    _GD_MplexData and the invalidation by gd_putdata, as a layer over the whole-field contents of its two
